@@ -59,6 +59,8 @@ def catalog_strategy(draw, max_slabs=4, max_halos=6, layouts=('box',), min_slabs
         'nprev': draw(st.integers(1, 3)),
         'compression': draw(st.sampled_from(list(compressions))),
         'cleanlayout': draw(st.sampled_from(['std', 'std', 'std', 'flat', 'insim', 'insim-flat'])),
+        # header scalars as Python ints where the value is integral (YAML written by other tools), else floats as Abacus writes them
+        'int_header': draw(st.sampled_from([False, False, False, True])),
         'seed': draw(st.integers(0, 2**32 - 1)),
         'slabs': slabs,
     }
@@ -179,10 +181,14 @@ def build(desc, root):
     cat.desc = desc
     cat.root = root
     cat.lc = lc
+    def _num(v):
+        v = float(v)
+        return int(v) if (desc.get('int_header') and v == int(v)) else v
+
     header = {
-        'BoxSize': float(desc['box']),
-        'VelZSpace_to_kms': float(desc['velz']),
-        'ppd': float(desc['ppd']),
+        'BoxSize': _num(desc['box']),
+        'VelZSpace_to_kms': _num(desc['velz']),
+        'ppd': _num(desc['ppd']),
         'SimName': 'Sim',
         'Redshift': 0.5,
         'OutputType': 'GroupOutput',
